@@ -24,7 +24,9 @@ RULE = ("cases = (dyadic start position, decimal places 6|9, direction, list "
         "(quarter-turn multiples incl. full turn), arc_radius, circle, spline, "
         "helix, thread, spiral, polyline, a user-supplied parametric curve that "
         "does not start at the current position, a set_axis (G92) re-zeroing "
-        "in the middle of the toolpath, shapes ending at absolute Z exactly 0; "
+        "in the middle of the toolpath, shapes ending at absolute Z exactly 0, "
+        "optionally a transform (mirror, scale by 2 or 1/2, dyadic translation) "
+        "active throughout; "
         "all coordinates multiples of 1/8 "
         "with |v|<=1024 so that o+(t-o) is exact; resolutions k*(1+2^-9), k in {1/2,1,2,"
         "4}); non-trivial = path with >=1 tracer shape and >=2 ops; distinct "
@@ -110,6 +112,20 @@ class Exec:
         self.g = self.s.g
         self.pos = list(case["start"])          # model position (dyadic, exact)
         self.g.set_axis(x=self.pos[0], y=self.pos[1], z=self.pos[2])
+        xf = case.get("xform")
+        self.xform = bool(xf)
+        self.stop_at = None
+        if xf:
+            # a transform made of exactly representable operations (so that both
+            # executions still compute bit-identical samples) is active throughout
+            if xf.get("mirror"):
+                self.g.transform.mirror("yz")
+            if xf.get("scale"):
+                self.g.transform.scale(float(xf["scale"]))
+            self.g.transform.translate(*[float(v) for v in xf["translate"]])
+            # bring the machine to the image of the start position (absolute
+            # move on all axes), so that both executions start in step
+            self.g.move(x=self.pos[0], y=self.pos[1], z=self.pos[2])
         self.g.set_direction(case["dir"])
         if base_mode == "relative":
             self.g.set_distance_mode("relative")
@@ -155,6 +171,10 @@ class Exec:
             p = self.pos
             if op.get("dz") == "to0":
                 op = dict(op, dz=-p[2])
+            if name == "set_axis" and self.xform:
+                # G92 under a transform puts machine and builder out of step by
+                # design (the two modes then differ legitimately): not issued
+                continue
             if name == "set_axis":
                 g.set_axis(**op["to"])
                 for ax, v in op["to"].items():
@@ -170,6 +190,12 @@ class Exec:
                 getattr(g, name)(**op["to"])
                 for ax, v in op["to"].items():
                     p["xyz".index(ax)] = v
+                if self.xform and self.stop_at is None and op["to"]:
+                    # a bypass move goes to the RAW target: under a transform the
+                    # machine and the builder are out of step afterwards by
+                    # design, so the two runs are compared up to here only
+                    self.collect()
+                    self.stop_at = len(self.verts)
             else:
                 g.set_resolution(op.get("res", 1.0))
                 if name == "arc":
@@ -252,6 +278,13 @@ def run_case(case, cl=None):
                         f"relative mode; ops={case['ops']!r}")
     if ea is not None:
         cl.add("rejected_in_both:" + type(ea).__name__)
+    if a.stop_at is not None or b.stop_at is not None:
+        if a.stop_at != b.stop_at and ea is None and eb is None:
+            raise Violation(f"{a.stop_at} machine positions up to the first bypass move in "
+                            f"absolute mode, {b.stop_at} in relative mode; ops={case['ops']!r}")
+        k = min(x for x in (a.stop_at, b.stop_at) if x is not None)
+        del a.verts[k:], b.verts[k:]
+        cl.add("compared_up_to_first_bypass_move_under_transform")
     n = min(len(a.verts), len(b.verts))
     U = float(a.s.U)
     for i in range(n):
@@ -264,7 +297,7 @@ def run_case(case, cl=None):
         raise Violation(f"{len(a.verts)} machine positions in absolute mode, "
                         f"{len(b.verts)} in relative mode; ops={case['ops']!r}")
     pa, pb = a.g.position, b.g.position
-    if math.dist(tuple(pa), tuple(pb)) > 1e-9 * (1 + max(abs(c) for c in pa)):
+    if a.stop_at is None and math.dist(tuple(pa), tuple(pb)) > 1e-9 * (1 + max(abs(c) for c in pa)):
         raise Violation(f"final builder positions differ: {tuple(pa)} vs {tuple(pb)}")
     shapes = [o for o in flatten(case["ops"]) if o["op"] not in
               ("move", "rapid", "move_absolute", "rapid_absolute", "ctx", "set_axis")]
@@ -272,6 +305,8 @@ def run_case(case, cl=None):
         cl.add("shape:" + o["op"])
     if any(o["op"] == "ctx" for o in flatten(case["ops"])):
         cl.add("mode_context")
+    if case.get("xform"):
+        cl.add("transform_active")
     if any(o["op"] == "set_axis" for o in flatten(case["ops"])):
         cl.add("rezero_mid_toolpath")
     if any(o.get("dz") == "to0" for o in flatten(case["ops"])):
@@ -297,6 +332,9 @@ def strategy():
     return st.fixed_dictionaries({
         "start": st.lists(dy(-30, 30), min_size=3, max_size=3),
         "dp": st.sampled_from([6, 9]), "dir": st.sampled_from(["cw", "ccw"]),
+        "xform": st.one_of(st.none(), st.none(), st.fixed_dictionaries({
+            "translate": st.lists(dy(-16, 16), min_size=3, max_size=3),
+            "scale": st.sampled_from([None, 2, 0.5]), "mirror": st.booleans()})),
         "ops": st.lists(op_strategy(), min_size=1, max_size=5)})
 
 
